@@ -76,7 +76,8 @@ var worldTable = map[string]map[string]string{
 	},
 	"path/filepath": {"Glob": "Glob", "Abs": "Abs", "Walk": "Walk", "WalkDir": "WalkDir", "EvalSymlinks": "EvalSymlinks"},
 	"io/ioutil":     {"ReadFile": "ReadFile", "WriteFile": "WriteFile", "TempFile": "CreateTemp", "TempDir": "MkdirTemp"},
-	"time":          {"Now": "Now", "Since": "Since", "Until": "Until", "Sleep": "Sleep"},
+	"time":          {"Now": "Now", "Since": "Since", "Until": "Until", "Sleep": "Sleep", "After": "After"},
+	"context":       {"WithTimeout": "WithTimeout", "WithDeadline": "WithDeadline"},
 	"math/rand": {"Int": "RandInt", "Intn": "RandIntn", "Int63": "RandInt63", "Int63n": "RandInt63n", "Int31": "RandInt31",
 		"Int31n": "RandInt31n", "Uint32": "RandUint32", "Uint64": "RandUint64", "Float64": "RandFloat64", "Seed": "RandSeed",
 		"Perm": "RandPerm", "Shuffle": "RandShuffle", "Read": "RandRead"},
@@ -88,7 +89,7 @@ var worldTable = map[string]map[string]string{
 var uncontrolledTable = map[string]map[string]bool{
 	"os":      {"Chtimes": true, "DirFS": true, "Pipe": true, "StartProcess": true, "FindProcess": true, "Lchown": true, "ReadLink": true, "CopyFS": true, "NewFile": true},
 	"os/exec": {"Command": true, "CommandContext": true, "LookPath": true},
-	"time":    {"After": true, "Tick": true, "NewTimer": true, "NewTicker": true, "AfterFunc": true},
+	"time":    {"Tick": true, "NewTimer": true, "NewTicker": true, "AfterFunc": true},
 	"net":     {"Dial": true, "Listen": true},
 	"syscall": {"Open": true, "Write": true, "Read": true, "Getenv": true, "Rename": true, "Unlink": true},
 	"math/rand/v2": {"Int": true, "IntN": true, "N": true, "Float64": true, "Perm": true, "Shuffle": true, "Uint64": true, "Uint32": true,
